@@ -39,7 +39,7 @@ R.selftest()
 
 RULE = ('case = sequence of typed store operations (uint w1..256, int w1..257, var_uint/var_int with length field 1..5 bits, '
         'coins, bit, bool, bits, bytes, string<=127 UTF-8 bytes, snake bytes 0..1000 (last), maybe_ref, dict (cell/None), '
-        'dict_hm (library HashMap cell), addr_none, addr_ext len 0..511, addr_std wc -128..127, addr_std_anycast depth 1..30) '
+        'dict_hm (library HashMap cell), slice (store_slice of a slice of which bits / references were already read, store_cell), a refused single-step store in between, addr_none, addr_ext len 0..511, addr_std wc -128..127, addr_std_anycast depth 1..30) '
         'built against a running capacity model (<=1023 bits, <=4 refs) so every sequence fits; values biased to '
         'min,min+1,-1,0,1,max-1,max and top-bit-set; grids enumerate every width x boundary value, every var-int byte '
         'length x boundary value for every length-field width 1..5, every external-address length, every workchain, every '
@@ -78,6 +78,8 @@ def kindclass(op, store_side=True):
         return k + (':len0' if op['len'] == 0 else '')
     if k in ('addr_std', 'addr_std_anycast'):
         return k + ('' if not store_side or op.get('via', 'obj') == 'obj' else ':' + op['via'])
+    if k == 'slice':
+        return 'slice' + ((':' + op['via']) if store_side else '') + (':all-refs-consumed' if op['pr'] and not op['r'] else '')
     return k
 
 
@@ -96,9 +98,11 @@ def enc_bits(op):
         return R.coins(op['v'])
     if k in ('bit', 'bool'):
         return R.bit(op['v'])
-    if k == 'bits':
+    if k in ('bits', 'slice'):
         assert R.is01(op['v'])
         return op['v']
+    if k == 'refused':
+        return ''
     if k == 'bytes':
         return R.from_bytes(bytes.fromhex(op['v']))
     if k == 'string':
@@ -124,6 +128,8 @@ def n_refs(op):
         return 0 if op['v'] is None else 1
     if k == 'dict_hm':
         return 1 if op['items'] else 0
+    if k == 'slice':
+        return op['r']
     return 0
 
 
@@ -219,6 +225,10 @@ def _make_aux(op):
         if not ok or cell is None:
             return None, Fail(f'setup/dict_hm/hashmap-build-failed/{exc_sig(cell) if not ok else "None"}', _short(op))
         return cell, None
+    if k == 'slice':
+        # source cell = (bits already read) + (bits to be copied), (refs already read) + (refs to be copied)
+        leaves = [_mk_builder(R.uint(0xA0 + i, 8) + '1' * i, []).end_cell() for i in range(op['pr'] + op['r'])]
+        return (_mk_builder(op['pb'] + op['v'], leaves).end_cell(), leaves[op['pr']:]), None
     return None, None
 
 
@@ -228,6 +238,11 @@ def _mk_address(op):
     if op['op'] == 'addr_std_anycast':
         a.set_anycast(op['depth'], op['pfx'])
     return a
+
+
+def _slice_cls():
+    from pytoniq_core.boc.slice import Slice
+    return Slice
 
 
 def _store(b, op, aux):
@@ -259,6 +274,18 @@ def _store(b, op, aux):
         return b.store_maybe_ref(aux)
     if k in ('dict', 'dict_hm'):
         return b.store_dict(aux)
+    if k == 'slice':
+        src = aux[0]
+        if op['via'] == 'store_cell':                 # pb == '' and pr == 0
+            return b.store_cell(src)
+        sl = src.begin_parse() if op['via'] != 'store_slice:from_cell' else _slice_cls().from_cell(src)
+        if op['pb']:
+            sl.load_bits(len(op['pb']))
+        for _ in range(op['pr']):
+            sl.load_ref()
+        if op['via'] == 'store_slice:copy':
+            sl = sl.copy()
+        return b.store_slice(sl)
     if k == 'addr_none':
         return b.store_address(None)
     if k == 'addr_ext':
@@ -331,6 +358,10 @@ def _accessors(s, op, aux):
         exp = {key: val for key, val in op['items']} or None
         return (lambda: s.preload_dict(op['kl'], value_deserializer=_hm_value_de)), \
                (lambda: s.load_dict(op['kl'], value_deserializer=_hm_value_de)), (lambda x: x == exp)
+    if k == 'slice':
+        n, r = len(op['v']), op['r']
+        return None, (lambda: (s.load_bits(n), [s.load_ref() for _ in range(r)])), \
+            (lambda x: _to01(x[0]) == op['v'] and len(x[1]) == r and all(_cell_same(a, c) for a, c in zip(x[1], aux[1])))
     if k == 'addr_none':
         return s.preload_address, s.load_address, (lambda x: x is None)
     if k == 'addr_ext':
@@ -353,6 +384,59 @@ def _show(x):
 # --------------------------------------------------------------------------------------------------
 # the check
 
+def _refused(b, op, exp_bits, exp_refs):
+    """a single-step store the builder has to refuse in its present state (one bit / one reference too many, a value outside
+    the width).  Whatever it raises: the values stored successfully before and after it are what is read back, so a refused
+    single-step store leaves bits and references as they were.  (Multi-step stores - var ints, addresses, snake, maybe_ref -
+    are not used here: the library writes them field by field and the statement does not promise they are undone.)"""
+    left, rleft = 1023 - len(exp_bits), 4 - len(exp_refs)
+    what = op['what']
+    leaf = _mk_builder('1011', []).end_cell()
+    if what == 'cell-bits' or what == 'slice-bits':
+        if left + 1 > 1023:
+            return None
+        src = _mk_builder('1' * (left + 1), [leaf] * min(1, rleft)).end_cell()
+        f = (lambda: b.store_cell(src)) if what == 'cell-bits' else (lambda: b.store_slice(src.begin_parse()))
+    elif what == 'cell-refs' or what == 'slice-refs':
+        if rleft == 4:
+            return None
+        src = _mk_builder('01' if left >= 2 else '', [leaf] * (rleft + 1)).end_cell()
+        f = (lambda: b.store_cell(src)) if what == 'cell-refs' else (lambda: b.store_slice(src.begin_parse()))
+    elif what == 'ref':
+        if rleft:
+            return None
+        f = lambda: b.store_ref(leaf)
+    elif what == 'uint-range':
+        w = max(1, min(left, op['w']))
+        if left == 0:
+            return None
+        f = lambda: b.store_uint(1 << w, w)
+    elif what == 'int-range':
+        w = max(1, min(left, op['w']))
+        if left == 0:
+            return None
+        f = lambda: b.store_int(1 << (w - 1), w)
+    elif what == 'uint-room':
+        if left + 1 > 256:
+            return None
+        f = lambda: b.store_uint(1, left + 1)
+    elif what == 'bits-room':
+        f = lambda: b.store_bits('1' * (left + 1))
+    elif what == 'bytes-room':
+        f = lambda: b.store_bytes(b'\xff' * (left // 8 + 1))
+    else:
+        raise AssertionError(what)
+    ok, e = call(f)
+    if ok:
+        return None                         # accepting it is C07's business; the content is re-synchronised by the caller
+    got, got_refs = b.bits.to01(), list(b.refs)
+    if got != exp_bits or len(got_refs) != len(exp_refs) or not all(x is y or _cell_same(x, y) for x, y in zip(got_refs, exp_refs)):
+        return Fail(f'store/after-refused-{what}/builder-content-altered',
+                    f'a refused single-step store left the builder with {len(got)} bits / {len(got_refs)} refs instead of '
+                    f'{len(exp_bits)} / {len(exp_refs)}: what is read back is no longer what was stored')
+    return None
+
+
 def _run(ops, fails):
     from pytoniq_core.boc.builder import Builder
     b = Builder()
@@ -367,9 +451,18 @@ def _run(ops, fails):
         if f is not None:
             fails.append(f)
             return
+        if k == 'refused':
+            f = _refused(b, op, exp_bits, exp_refs)
+            if f is not None:
+                fails.append(f)
+                b = _mk_builder(exp_bits, exp_refs)
+            spans.append((len(exp_bits), len(exp_refs), None))
+            continue
         if k == 'snake':
             data = bytes.fromhex(op['v'])
             want_bits, want_refs = None, None
+        elif k == 'slice':
+            want_bits, want_refs = enc_bits(op), list(aux[1])
         else:
             want_bits = enc_bits(op)
             want_refs = [aux] if n_refs(op) else []
@@ -436,6 +529,8 @@ def _run(ops, fails):
     s = alt if alt is not None else cell.begin_parse()
     off, roff = 0, 0
     for i, op in enumerate(ops):
+        if op['op'] == 'refused':
+            continue
         kc = kindclass(op, store_side=False)
         end, rend, aux = spans[i]
         pre, load, same = _accessors(s, op, aux)
@@ -563,8 +658,10 @@ def classify(case):
                 labels.append('snake:root-full')
         elif k == 'string':
             labels.append('string:' + ('empty-last' if op['v'] == '' else 'ascii' if op['v'].isascii() else 'multibyte'))
-        elif k in ('maybe_ref', 'dict', 'dict_hm'):
+        elif k in ('maybe_ref', 'dict', 'dict_hm', 'slice'):
             labels.append(kindclass(op))
+        elif k == 'refused':
+            labels.append('refused:' + op['what'])
         for lb in labels:
             if lb not in seen:
                 seen.add(lb)
@@ -656,10 +753,10 @@ _acc = st.one_of(st.binary(min_size=32, max_size=32),
 
 _KIND_W = [('uint', 5), ('int', 5), ('var_uint', 4), ('var_int', 6), ('coins', 3), ('bit', 2), ('bool', 2), ('bits', 2),
            ('bytes', 2), ('string', 2), ('maybe_ref', 3), ('dict', 1), ('dict_hm', 1), ('addr_none', 1), ('addr_ext', 3),
-           ('addr_std', 2), ('addr_std_anycast', 3)]
+           ('addr_std', 2), ('addr_std_anycast', 3), ('slice', 4), ('refused', 3)]
 _NEED = {'uint': 1, 'int': 1, 'var_uint': 1, 'var_int': 1, 'coins': 4, 'bit': 1, 'bool': 1, 'bits': 0, 'bytes': 0,
          'string': 8, 'maybe_ref': 1, 'dict': 1, 'dict_hm': 1, 'addr_none': 2, 'addr_ext': 11, 'addr_std': 267,
-         'addr_std_anycast': 273}
+         'addr_std_anycast': 273, 'slice': 0, 'refused': 0}
 
 
 def _fit_utf8(s, limit):
@@ -710,6 +807,20 @@ def _draw_op(draw, kind, left, refs_left):
         kl = draw(st.sampled_from([8, 16, 32]))
         items = draw(st.dictionaries(st.integers(0, (1 << kl) - 1), st.integers(0, (1 << 32) - 1), max_size=4)) if refs_left else {}
         return {'op': 'dict_hm', 'kl': kl, 'items': [[k, items[k]] for k in sorted(items)]}
+    if kind == 'slice':
+        n = draw(st.one_of(st.integers(0, min(left, 24)), st.integers(0, left)))
+        r = draw(st.integers(0, refs_left))
+        pr = draw(st.sampled_from([0, 0, 1, 2, 4 - r, 4 - r]))
+        pr = max(0, min(pr, 4 - r))
+        pbn = draw(st.integers(0, min(1023 - n, 12)))
+        via = draw(st.sampled_from(['store_slice', 'store_slice', 'store_slice:copy', 'store_slice:from_cell']))
+        if (pbn == 0 and pr == 0) or draw(st.integers(0, 4)) == 0:
+            via, pbn, pr = 'store_cell', 0, 0
+        return {'op': 'slice', 'pb': draw(_bits01(pbn)), 'pr': pr, 'v': draw(_bits01(n)), 'r': r, 'via': via}
+    if kind == 'refused':
+        return {'op': 'refused', 'w': draw(st.sampled_from([1, 2, 8, 32, 64, 255, 256])),
+                'what': draw(st.sampled_from(['cell-bits', 'slice-bits', 'cell-refs', 'slice-refs', 'ref', 'uint-range', 'int-range',
+                                              'uint-room', 'bits-room', 'bytes-room']))}
     if kind == 'addr_none':
         return {'op': 'addr_none'}
     if kind == 'addr_ext':
